@@ -149,6 +149,14 @@ def gen_history(rng, nupd, allow_bad=True, only_kinds=None):
             ck = rng.randint(0, 3)
             colonies[col][k] = ck
             init = {'s': {'n': rng.randint(0, 9)}} if rng.random() < 0.7 else {}
+            if init and rng.random() < 0.5:
+                # the other variables of the compartment get values too (they are copied to daughters: a daughter's
+                # explicit initial state that names only s.n must leave them alone)
+                if ck & 1:
+                    init['s']['d'] = rng.randint(1, 9)
+                if ck & 2:
+                    init['s']['f'] = rng.randint(1, 9)
+                    init['s']['g'] = rng.randint(1, 9)
             return ['generate', k, ck, init]
         if kind == 'upd':
             # a plain value update of a child, next to the structural keys of the same update: it is applied after
